@@ -1,0 +1,65 @@
+//go:build verif
+// +build verif
+
+/*
+Copyright SecureKey Technologies Inc. All Rights Reserved.
+
+SPDX-License-Identifier: Apache-2.0
+*/
+
+// Package verifhooks re-exports internal JWS functions for external verification harnesses.
+// It is only compiled with the 'verif' build tag.
+package verifhooks
+
+import (
+	internaljws "github.com/trustbloc/sidetree-core-go/pkg/internal/jws"
+	"github.com/trustbloc/sidetree-core-go/pkg/internal/signutil"
+	"github.com/trustbloc/sidetree-core-go/pkg/jws"
+)
+
+// Signer is the signer used by SignPayload/SignModel.
+type Signer = signutil.Signer
+
+// ParsedJWS holds the externally visible parts of a parsed compact JWS.
+type ParsedJWS struct {
+	ProtectedHeaders jws.Headers
+	Payload          []byte
+	Signature        []byte
+}
+
+func export(p *internaljws.JSONWebSignature) *ParsedJWS {
+	if p == nil {
+		return nil
+	}
+
+	return &ParsedJWS{ProtectedHeaders: p.ProtectedHeaders, Payload: p.Payload, Signature: p.Signature()}
+}
+
+// VerifyJWS calls internal/jws.VerifyJWS.
+func VerifyJWS(compact string, jwk *jws.JWK) (*ParsedJWS, error) {
+	p, err := internaljws.VerifyJWS(compact, jwk)
+
+	return export(p), err
+}
+
+// ParseJWS calls internal/jws.ParseJWS.
+func ParseJWS(compact string) (*ParsedJWS, error) {
+	p, err := internaljws.ParseJWS(compact)
+
+	return export(p), err
+}
+
+// VerifySignature calls internal/jws.VerifySignature.
+func VerifySignature(jwk *jws.JWK, signature, msg []byte) error {
+	return internaljws.VerifySignature(jwk, signature, msg)
+}
+
+// SignPayload calls internal/signutil.SignPayload.
+func SignPayload(payload []byte, signer Signer) (string, error) {
+	return signutil.SignPayload(payload, signer)
+}
+
+// SignModel calls internal/signutil.SignModel.
+func SignModel(model interface{}, signer Signer) (string, error) {
+	return signutil.SignModel(model, signer)
+}
